@@ -1411,6 +1411,16 @@ impl Analyzable for Statement
 			} =>
 			{
 				let ref_type = typer.get_type_of_reference(&mut reference);
+				let ref_type = match ref_type
+				{
+					Some(Err(Poison::Error(error))) =>
+					{
+						// The assignee cannot be indexed like this.
+						reference.base = Err(Poison::Error(error));
+						Some(Err(Poison::Poisoned))
+					}
+					ref_type => ref_type,
+				};
 				typer.contextual_type = ref_type;
 				let value = value.analyze(typer);
 				typer.contextual_type = None;
